@@ -37,7 +37,14 @@ func (t *TargetHasher) SetTargetChangeHash(target *model.Target) error {
 	for index, dependency := range dependencies {
 		targetDependency, ok := dependency.(*model.Target)
 		if !ok {
-			// Only consider dependencies that are targets
+			// Only consider dependencies that are targets.
+			// An alias contributes the output hashes of the targets it resolves to.
+			for _, resolvedDependency := range t.graph.GetTargetDependencies(dependency) {
+				if resolvedDependency.OutputHash == "" {
+					return fmt.Errorf("dependency %s of %s (via %s) has no output hash", resolvedDependency.Label, target.Label, dependency.GetLabel())
+				}
+				dependencyHashes = append(dependencyHashes, resolvedDependency.OutputHash)
+			}
 			continue
 		}
 
